@@ -33,8 +33,17 @@ def _row_array(M):
     wmo = _wmo()
     try:
         n = np.arange(0, M + 1)
-        out = wmo.perc2okta(n / M * 100)
-        return M, 'array', [int(k) for k in out]
+        arg = n / M * 100
+        out = wmo.perc2okta(arg)
+        first = [int(k) for k in out]
+        try:
+            out[...] = 13
+        except (ValueError, TypeError):
+            pass
+        second = [int(k) for k in wmo.perc2okta(arg)]
+        if second != first:
+            return M, 'array', 'answer-depends-on-earlier-calls'
+        return M, 'array', first
     except Exception as e:
         return M, 'array', _exc_name(e)
 
@@ -61,8 +70,26 @@ def _row_scalar(M):
             b = wmo.perc2okta(np.int64(n) / M * 100)      # numpy float64, as metarize produces it
             ka, kb = int(a[0]), int(b[0])
             outs.append(ka if ka == kb and len(a) == 1 and len(b) == 1 else f'scalar-paths-differ:{ka}/{kb}')
+            # what a caller does with the answer is the caller's business: the array handed out is overwritten in
+            # place here, and the same question is asked again below (an answer must not depend on earlier answers)
+            try:
+                a[...] = 13
+                b[...] = 13
+            except (ValueError, TypeError):
+                pass
         except Exception as e:
             outs.append(_exc_name(e))
+    for n in range(M, -1, -1):
+        if not isinstance(outs[n], int):
+            continue
+        try:
+            again = wmo.perc2okta(n / M * 100)
+            k2 = int(again[0])
+            again[...] = 77
+        except Exception as e:
+            k2 = _exc_name(e)
+        if k2 != outs[n]:
+            outs[n] = f'answer-depends-on-earlier-calls:{outs[n]}/{k2}'
     return M, 'scalar', outs
 
 
